@@ -138,7 +138,7 @@ proof_canonical!(c05_proof_canonical_8_{EB}, {EB}, 8, 0, {=({EB}*8+7)/8+12});
 //@ end
 //@ repeat EB in 8,9,13,16,29,31,32,33,61,63
 proof_canonical!(c05_proof_canonical_42_{EB}, {EB}, 42, 3, {=({EB}*42+7)/8+45});
-proof_roundtrip!(c05_proof_roundtrip_42_{EB}, {EB}, 42, 3, {=({EB}*42+7)/8+45});
+proof_roundtrip!(c05_proof_roundtrip_42_{EB}, {EB}, 42, 3, {=({EB}*42+7)/8+45+340}); // + 42 nonces * 8 bytes compared by memcmp in `back == Ok(p)`
 //@ end
 //@ repeat EB in 16,32
 proof_canonical!(c05_proof_canonical_5_{EB}, {EB}, 5, 3, {=({EB}*5+7)/8+36});
